@@ -5,6 +5,7 @@ import (
 	"math"
 	"math/big"
 	"reflect"
+	"runtime"
 	"sort"
 	"sync"
 	"time"
@@ -821,6 +822,12 @@ func runC07(c *hc.Ctx) error {
 				c.Violate(hc.Violation{What: "the same polygon and settings returned different geometry on repetition / with the id list permuted", Input: caseJSON(g, poly, ids, cfg, r), Observed: r2.Raw})
 			}
 		}
+		// a caller that keeps its values: the very same polygon value and id slice are handed over twice (nothing is rebuilt
+		// or copied in between), and one id buffer is refilled for successive requests.  A call that writes into its
+		// arguments, or keeps a reference to them for the next call, shows here.
+		if reused := reusedValues(c, g, poly, ids, cfg, r); reused != "" {
+			continue
+		}
 		if valid {
 			rp := make([][]Pt, len(poly))
 			for k := range poly {
@@ -849,6 +856,7 @@ func runC07(c *hc.Ctx) error {
 	}
 	componentStream(c)
 	concurrentRepetition(c, grids)
+	bigRingsAcrossProcs(c)
 	// built-in sets whose CRS lists northing first (the point of origin is put in x,y order on every use): the same
 	// loaded set used again and again must keep giving the same answer
 	for _, name := range []string{"EuropeanETRS89_LAEAQuad", "NZTM2000Quad", "WGS1984Quad"} {
@@ -892,6 +900,114 @@ func runC07(c *hc.Ctx) error {
 		}
 	}
 	return nil
+}
+
+// bigRingsAcrossProcs: "in every process": a ring of a thousand and more vertices (a digitised circle whose segments are
+// shorter than a pixel) is snapped with GOMAXPROCS 1, 2, 3 and 8, as processes on machines with other core counts
+// would; work that is split by size and by the number of threads shows here.
+func bigRingsAcrossProcs(c *hc.Ctx) {
+	g, err := newSyntheticGrid(4, 16, 0, 0)
+	if err != nil {
+		return
+	}
+	old := runtime.GOMAXPROCS(0)
+	defer runtime.GOMAXPROCS(old)
+	size := int64(1) << g.Deep
+	for k := 0; k < c.N(2, 12); k++ {
+		n := []int{1024, 1500, 2048, 4096}[c.Rng.Intn(4)]
+		cx := g.Ext[0] + (size/2)*g.Res + c.Rng.Int63n(g.Res)
+		cy := g.Ext[1] + (size/2)*g.Res + c.Rng.Int63n(g.Res)
+		rad := float64((size/8 + c.Rng.Int63n(size/4)) * g.Res)
+		ring := make([]Pt, 0, n)
+		for i := 0; i < n; i++ {
+			a := 2 * math.Pi * float64(i) / float64(n)
+			ring = append(ring, Pt{cx + int64(rad*math.Cos(a)), cy + int64(rad*math.Sin(a))})
+		}
+		poly := [][]Pt{ring}
+		if !g.inGrid(poly) {
+			continue
+		}
+		ids := []int{g.DeepestID - 2 + c.Rng.Intn(3), g.DeepestID}
+		if ids[0] == ids[1] {
+			ids = ids[:1]
+		}
+		cfg := randCfg(c.Rng)
+		cfg.IgnoreOutsideGrid = false
+		runtime.GOMAXPROCS(1)
+		first := runSnap(g, poly, ids, cfg, watchdog)
+		for _, procs := range []int{2, 3, 8} {
+			runtime.GOMAXPROCS(procs)
+			again := runSnap(g, poly, ids, cfg, watchdog)
+			c.Sum.Evaluations++
+			c.Count("ring of >= 1024 vertices repeated under another GOMAXPROCS")
+			if again.Panic != first.Panic || !reflect.DeepEqual(first.Raw, again.Raw) {
+				obs := any(again.Raw)
+				if again.Panic != "" {
+					obs = again.Panic + ": " + again.PanicMsg
+				}
+				c.Violate(hc.Violation{What: fmt.Sprintf("the same polygon (a ring of %d vertices) and settings returned different geometry with GOMAXPROCS=%d than with GOMAXPROCS=1", n, procs),
+					Input: map[string]any{"grid": g.Name, "ring": "circle", "vertices": n, "centre": Pt{cx, cy}, "radius_units": rad, "ids": ids, "config": cfgJSON(cfg)}, Observed: obs})
+				break
+			}
+		}
+	}
+}
+
+// reusedValues: see the call site.  Returns a non-empty string after reporting a violation.
+func reusedValues(c *hc.Ctx, g *Grid, poly [][]Pt, ids []int, cfg snap.Config, want *Result) string {
+	fp, _ := g.toFloatPoly(poly)
+	before, _ := g.toFloatPoly(poly)
+	buf := append([]int(nil), ids...)
+	for rep := 1; rep <= 2; rep++ {
+		got := runSnapShared(g, fp, buf, cfg, watchdog)
+		c.Sum.Evaluations++
+		c.Count("repetition with the caller's own polygon value and id slice (nothing copied)")
+		if got.Panic != want.Panic || !reflect.DeepEqual(got.Raw, want.Raw) {
+			obs := any(got.Raw)
+			if got.Panic != "" {
+				obs = got.Panic + ": " + got.PanicMsg
+			}
+			what := fmt.Sprintf("the same polygon VALUE snapped again (call %d with the same slices, nothing rebuilt in between) returned different geometry", rep)
+			if !reflect.DeepEqual(fp, before) {
+				what += ": the call wrote into the caller's polygon"
+			}
+			if !reflect.DeepEqual(buf, ids) {
+				what += ": the call wrote into the caller's id slice"
+			}
+			c.Violate(hc.Violation{What: what, Input: caseJSON(g, poly, ids, cfg, want), Observed: obs})
+			return what
+		}
+	}
+	if !reflect.DeepEqual(fp, before) || !reflect.DeepEqual(buf, ids) {
+		what := "SnapPolygon wrote into its arguments (the polygon or the id slice differs after the call): the caller's next use of that value snaps another polygon"
+		c.Violate(hc.Violation{What: what, Input: caseJSON(g, poly, ids, cfg, want), Observed: map[string]any{"polygon_after": fp, "ids_after": buf}})
+		return what
+	}
+	// one id buffer refilled: first another request of the same length, then this one
+	if g.DeepestID >= len(ids) && len(ids) > 0 {
+		perm := c.Rng.Perm(g.DeepestID + 1)
+		other := perm[:len(ids)]
+		if !reflect.DeepEqual(other, ids) {
+			buf2 := make([]int, len(ids)) // a buffer of its own: the calls above must not have seen it
+			copy(buf2, other)
+			fp2, _ := g.toFloatPoly(poly)
+			_ = runSnapShared(g, fp2, buf2, cfg, watchdog)
+			copy(buf2, ids)
+			got := runSnapShared(g, fp2, buf2, cfg, watchdog)
+			c.Sum.Evaluations++
+			c.Count("id buffer refilled between two requests")
+			if got.Panic != want.Panic || !reflect.DeepEqual(got.Raw, want.Raw) {
+				obs := any(got.Raw)
+				if got.Panic != "" {
+					obs = got.Panic + ": " + got.PanicMsg
+				}
+				what := fmt.Sprintf("the request %v made from an id buffer that held %v for the previous request returned different geometry (or other keys) than the same request made from a fresh slice", ids, other)
+				c.Violate(hc.Violation{What: what, Input: caseJSON(g, poly, ids, cfg, want), Observed: obs})
+				return what
+			}
+		}
+	}
+	return ""
 }
 
 // concurrentRepetition: "in every process and on every repetition" also while other goroutines are snapping other
@@ -1021,6 +1137,7 @@ func runC08(c *hc.Ctx) error {
 	if c.Search {
 		n *= 10
 	}
+	sharedIDs := make([]int, 16)
 	for i := 0; i < n; i++ {
 		g, poly, kind := rawCase(c, grids, 8)
 		if i%3 == 1 { // shapes whose shell collapses at a deep level but not at a coarser one (rejection sampled on that fate)
@@ -1075,6 +1192,12 @@ func runC08(c *hc.Ctx) error {
 		if deeperGone {
 			c.Count("fates differ: present at a coarser tile matrix, absent at a deeper one")
 		}
+		type freshReq struct {
+			g   *Grid
+			ids []int
+			r   *Result
+		}
+		var fresh []freshReq
 		for mask := 1; mask < 1<<len(all); mask++ {
 			var ids []int
 			for k, id := range all {
@@ -1096,6 +1219,7 @@ func runC08(c *hc.Ctx) error {
 			if unexpectedPanic(c, gm, poly, ids, cfg, r) {
 				continue
 			}
+			fresh = append(fresh, freshReq{gm, append([]int(nil), ids...), r})
 			for id := range r.Raw {
 				if !containsInt(ids, id) {
 					c.Violate(hc.Violation{What: fmt.Sprintf("result contains tile matrix %d which was not requested", id), Input: caseJSON(gm, poly, ids, cfg, r)})
@@ -1116,8 +1240,93 @@ func runC08(c *hc.Ctx) error {
 				c.Sample(caseJSON(gm, poly, ids, cfg, r))
 			}
 		}
+		if i%3 == 0 {
+			// a caller that enumerates its requests in ONE buffer, refilled for every request (as a subset enumeration
+			// does), with nothing else snapped in between: each answer must be the one the same request got from a fresh slice
+			for _, fr := range fresh {
+				buf := sharedIDs[:len(fr.ids)]
+				copy(buf, fr.ids)
+				fp, _ := fr.g.toFloatPoly(poly)
+				r2 := runSnapShared(fr.g, fp, buf, cfg, watchdog)
+				c.Sum.Evaluations++
+				c.Count("request made from a buffer that held the previous request")
+				if r2.Panic != fr.r.Panic || !reflect.DeepEqual(r2.Raw, fr.r.Raw) {
+					obs := any(r2.Raw)
+					if r2.Panic != "" {
+						obs = r2.Panic + ": " + r2.PanicMsg
+					}
+					c.Violate(hc.Violation{What: fmt.Sprintf("the request %v made from an id buffer that held the previous request returned other keys or geometry than the same request made from a fresh slice", fr.ids), Input: caseJSON(fr.g, poly, fr.ids, cfg, fr.r), Observed: obs})
+					break
+				}
+			}
+		}
 	}
 	return nil
+}
+
+// sameIDSets: two tile matrix sets that carry the same identifier but lie elsewhere (a copy of a set with an edited point
+// of origin), used one after the other in one process: each must be range-checked against ITS OWN extent.
+func sameIDSets(c *hc.Ctx) {
+	gA, errA := newSyntheticGrid(2, 8, 32, 32)
+	gB, errB := newSyntheticGrid(2, 8, 32, -48)
+	if errA != nil || errB != nil {
+		return
+	}
+	gA.TMS.ID, gB.TMS.ID = "verif-shared-identifier", "verif-shared-identifier"
+	gA.Name, gB.Name = gA.Name+" id=shared", gB.Name+" id=shared"
+	for round := 0; round < c.N(30, 400); round++ {
+		first, second := gA, gB
+		if round%2 == 1 {
+			first, second = gB, gA
+		}
+		ids := randIDs(c.Rng, first)
+		pf, _ := validCaseOn(c, first, 8)
+		_ = runSnap(first, pf, ids, snap.Config{}, watchdog)
+		// now the other set: a polygon inside it must be snapped, one reaching outside it must be rejected
+		ps, _ := validCaseOn(c, second, 8)
+		cfg := randCfg(c.Rng)
+		r := runSnap(second, ps, ids, cfg, watchdog)
+		c.Sum.Evaluations++
+		c.Count("two sets with the same identifier used one after the other")
+		if r.Panic == "OutsideGrid" || (cfg.IgnoreOutsideGrid && r.Panic == "" && len(r.Raw) == 0 && nVerts(ps) >= 3 && !collapsesEverywhere(second, ps, ids, cfg)) {
+			c.Violate(hc.Violation{What: "a polygon inside the extent of its tile matrix set was rejected as outside the grid after another set with the same identifier had been used", Input: caseJSON(second, ps, ids, cfg, nil), Observed: r.Panic + " " + r.PanicMsg})
+			continue
+		}
+		// move one vertex just outside (below / left of) the second set's extent
+		po := clonePoly(ps)
+		if len(po) == 0 || len(po[0]) == 0 {
+			continue
+		}
+		po[0][0] = Pt{second.Ext[0] - 1 - c.Rng.Int63n(second.Res), po[0][0][1]}
+		ro := runSnap(second, po, ids, cfg, watchdog)
+		c.Sum.Evaluations++
+		bad := (!cfg.IgnoreOutsideGrid && ro.Panic != "OutsideGrid") || (cfg.IgnoreOutsideGrid && (ro.Panic != "" || len(ro.Raw) != 0))
+		if bad {
+			c.Violate(hc.Violation{What: "a polygon with a vertex outside the extent of its tile matrix set was not rejected after another set with the same identifier had been used", Input: caseJSON(second, po, ids, cfg, nil), Observed: map[string]any{"panic": ro.Panic, "result": ro.Raw}})
+		}
+	}
+}
+
+// collapsesEverywhere: requested with a fresh, identifier-less copy of the set the polygon returns nothing (so an empty
+// result is no sign of rejection)
+func collapsesEverywhere(g *Grid, poly [][]Pt, ids []int, cfg snap.Config) bool {
+	t := g.TMS
+	t.ID = ""
+	g2 := *g
+	g2.TMS = t
+	r := runSnap(&g2, poly, ids, cfg, watchdog)
+	return r.Panic == "" && len(r.Raw) == 0
+}
+
+// validCaseOn: a valid polygon inside the given grid
+func validCaseOn(c *hc.Ctx, g *Grid, maxW int64) ([][]Pt, string) {
+	for {
+		w := randWindow(c.Rng, g, maxW)
+		poly, kind := genValidPolygon(c.Rng, w)
+		if g.inGrid(poly) && nVerts(poly) >= 3 {
+			return poly, kind
+		}
+	}
 }
 
 func containsInt(l []int, x int) bool {
@@ -1361,6 +1570,7 @@ func runC09(c *hc.Ctx) error {
 			c.Violate(hc.Violation{What: "with ignore-outside-grid a polygon with a vertex beyond the int64 range did not return an empty result", Input: in, Expected: "empty map", Observed: r.Panic + " " + r.PanicMsg})
 		}
 	}
+	sameIDSets(c)
 	return nil
 }
 
